@@ -25,6 +25,14 @@ class E2(Exception):
         return False
 
 
+class E3(Exception):
+    """An exception that cannot be rendered: str(e) raises (an API error whose message is looked up in a payload that lacks
+    it).  The engine must treat it like any other failure and never needs its text."""
+
+    def __str__(self) -> str:
+        raise KeyError('message')
+
+
 class Fatal(BaseException):
     """A BaseException outside Exception (not KeyboardInterrupt/SystemExit: asyncio re-raises those
     out of Handle._run, which is a property of asyncio and not of the engine)."""
@@ -83,7 +91,7 @@ class Ambig:
         return f'Ambig({self.payload!r})'
 
 
-EXC = {'E1': E1, 'E2': E2, 'Fatal': Fatal}
+EXC = {'E1': E1, 'E2': E2, 'E3': E3, 'Fatal': Fatal}
 
 
 class _Missing:
@@ -217,6 +225,8 @@ def _finish(w: World, rid: int, name: str, i: int, kw: dict, node_self: t.Any, f
         return Ambig(prov(name, kw))
     if oc == 'excval':
         return ExcValue(name, prov(name, kw))
+    if oc == 'unhashable':
+        return ['a']            # a switch label that cannot even be looked up
     if oc.startswith('label:'):
         return oc[6:]
     if oc.startswith('raise:'):
@@ -253,6 +263,8 @@ def pure_value(name: str, kw: t.Mapping, oc: str, node_self: t.Any, i: int = 0):
         return Ambig(prov(name, kw))
     if oc == 'excval':
         return ExcValue(name, prov(name, kw))
+    if oc == 'unhashable':
+        return ['a']
     if oc.startswith('label:'):
         return oc[6:]
     if oc.startswith('raise:'):
